@@ -162,8 +162,11 @@ Section Proofs.
       + intro psi. rewrite run_ops_app, R1. simpl. apply R2.
   Qed.
 
-  (* The full program-level statement (tier A, theorem 2 of DESIGN.md): NOT yet proved; what is
-     proved is the gate level and the block level above (encode_homomorphism_partial in Props). *)
+  (* The program-level statement (tier A, theorem 2 of DESIGN.md); proved in HomProofs.v.
+     wf_prog is the visible restriction: classical bits are written in measurement order (open
+     finding C19:condition:reads-outcome-position-of-clbit-index), a block reads a bit already
+     written, blocks act on one qubit and have no else part (the two if_else findings; such
+     blocks are not expressible in qop), no entangling gate (those: KLMProofs.v). *)
   Fixpoint wf_prog (m : nat) (p : list (@qop A)) : Prop :=
     match p with
     | [] => True
